@@ -275,6 +275,28 @@ func c08Growth(w *mc.W, cas c08Case) {
 		tx.AddTxOut(wire.NewTxOut(1, c10OutScript("p2pk-K1"), wire.TokenData{}))
 		txs = append(txs, tx)
 	}
+	if cas.B == 1 {
+		// ladder: n/2 layers of two transactions; each transaction of a layer spends one output of BOTH
+		// transactions of the layer below, so the number of distinct paths from the bottom doubles per
+		// layer (a scan that re-walks dependants per path rather than per transaction is exponential)
+		txs = txs[:0]
+		for i := 0; i < n; i++ {
+			tx := wire.NewMsgTx(1)
+			tx.LockTime = uint32(1000 + i)
+			if i < 2 {
+				o := c10ExtOutPoint(i)
+				tx.AddTxIn(wire.NewTxIn(&o, []byte{0x51}))
+			} else {
+				layer := i / 2
+				ha, hb := txs[2*(layer-1)].TxHash(), txs[2*(layer-1)+1].TxHash()
+				tx.AddTxIn(wire.NewTxIn(&wire.OutPoint{Hash: ha, Index: uint32(i % 2)}, []byte{0x51}))
+				tx.AddTxIn(wire.NewTxIn(&wire.OutPoint{Hash: hb, Index: uint32(i % 2)}, []byte{0x51}))
+			}
+			tx.AddTxOut(wire.NewTxOut(1, c10OutScript("p2pk-K1"), wire.TokenData{}))
+			tx.AddTxOut(wire.NewTxOut(1, c10OutScript("p2pk-K1"), wire.TokenData{}))
+			txs = append(txs, tx)
+		}
+	}
 	blk := wire.NewMsgBlock(fixedHeader(1, &chainhash.Hash{}, &chainhash.Hash{}, 0, 0))
 	for i := n - 1; i >= 0; i-- {
 		blk.AddTransaction(txs[i])
@@ -297,7 +319,7 @@ func c08Growth(w *mc.W, cas c08Case) {
 	hookStepReset(1 << 62)
 	if p {
 		if strings.Contains(msg, "StepBudgetExceeded") {
-			c.Violate("block-scan-cost-not-polynomial/GetMatchedIndices", "call", cas, fmt.Sprintf("n=%d transactions (each spending two outputs of the next one in block order): more than %d steps", n, budget))
+			c.Violate("block-scan-cost-not-polynomial/GetMatchedIndices", "call", cas, fmt.Sprintf("n=%d transactions (%s, children before parents in the block): more than %d steps", n, map[int64]string{0: "a chain, each spending two outputs of its parent", 1: "a ladder, each spending one output of both transactions of the layer below"}[cas.B], budget))
 			w.Outcome("GetMatchedIndices-growth: step budget exceeded")
 			return
 		}
@@ -771,6 +793,9 @@ func c08Cases(c *mc.Ctx) ([]c08Case, int) {
 	// 5. growth family
 	for n := 2; n <= mc.Pick(c, 14, 18); n++ {
 		add(c08Case{Family: "GetMatchedIndices-growth", A: int64(n)})
+	}
+	for n := 4; n <= mc.Pick(c, 40, 60); n += 2 { // the ladder shape (B = 1): n/2 layers
+		add(c08Case{Family: "GetMatchedIndices-growth", A: int64(n), B: 1})
 	}
 	// 6. merkle-block messages
 	for _, cnt := range []int64{0, 1, 2, 3, 7, int64(merkleblock.MaxTxnCount), int64(merkleblock.MaxTxnCount) + 1, 1<<32 - 1} {
